@@ -22,9 +22,14 @@
 (***************************************************************************)
 EXTENDS MechModel
 
-CONSTANTS NObj, MaxEvals
-VARIABLES evals, phaseP, ehist
-pvars == <<cfg, pend, solver, sinfo, nops, last, hist, evals, phaseP, ehist>>
+CONSTANTS NObj, MaxEvals,
+          EMCopy        \* "deep": every object owns its own copy of the user's (reduced) error model;
+                        \* "shallow": the copies share the mask / value buffer of the user's object (negative control)
+VARIABLES evals, phaseP, ehist,
+          emcell,       \* owner (0 = the user, o = object o) -> cell holding the fixed-parameter state of its error model
+          cells         \* cell -> [rel |-> value code the relative noise is fixed to, base |-> base noise fixed?]
+emvars == <<emcell, cells>>
+pvars == <<cfg, pend, solver, sinfo, nops, last, hist, evals, phaseP, ehist, emcell, cells>>
 
 Objects == 1..NObj
 Owned(o) == 1 + o
@@ -32,44 +37,61 @@ EvalKinds == {"value", "pointwise", "S1", "sample"}
 
 \* construction: the user configures the model (route + regimen), then every object copies it
 PU_Init == /\ Init /\ evals = 0 /\ phaseP = "configure" /\ ehist = <<>>
+           /\ emcell = [w \in 0..NObj |-> 0] /\ cells = [c \in 0..NObj |-> [rel |-> 1, base |-> FALSE]]
+EMVal(w) == cells[emcell[w]]       \* the fixed-parameter state the error model of owner w evaluates with
 
 PU_Configure ==            \* set_administration; set_dosing_regimen on the user's model (through MechModel actions)
   /\ phaseP = "configure" /\ AllIdle
   /\ \/ cfg[1].admin = "none" /\ MM_Call(1, "adm", "direct")
      \/ cfg[1].admin # "none" /\ cfg[1].reg = 0 /\ MM_Call(1, "reg", 1)
-  /\ UNCHANGED <<evals, phaseP, ehist>>
+  /\ UNCHANGED <<evals, phaseP, ehist, emvars>>
 PU_Construct ==            \* objects are built one after the other, each copies the user's model
   /\ phaseP = "configure" /\ AllIdle /\ cfg[1].reg # 0
-  /\ \E o \in Objects : ~cfg[Owned(o)].ex /\ (\A q \in Objects : q < o => cfg[Owned(q)].ex) /\ MM_Copy(1, Owned(o))
+  /\ \E o \in Objects : /\ ~cfg[Owned(o)].ex /\ (\A q \in Objects : q < o => cfg[Owned(q)].ex) /\ MM_Copy(1, Owned(o))
+                         /\ IF EMCopy = "deep" THEN emcell' = [emcell EXCEPT ![o] = o] /\ cells' = [cells EXCEPT ![o] = cells[emcell[0]]]
+                                              ELSE UNCHANGED emvars          \* the copy aliases the user's arrays
   /\ UNCHANGED <<evals, phaseP, ehist>>
 PU_Start == /\ phaseP = "configure" /\ AllIdle /\ \A o \in Objects : cfg[Owned(o)].ex
-            /\ phaseP' = "run" /\ UNCHANGED <<cfg, pend, solver, sinfo, nops, last, hist, evals, ehist>>
+            /\ phaseP' = "run" /\ UNCHANGED <<cfg, pend, solver, sinfo, nops, last, hist, evals, ehist, emvars>>
 
 \* an evaluation: first the switch (if it has to change), then the simulation -- two public calls on the owned model
 NeedsSwitch(o, k) == (k \in {"value", "pointwise"} /\ cfg[Owned(o)].sens) \/ (k = "S1" /\ ~cfg[Owned(o)].sens)
 PU_EvalSwitch(o, k) ==
   /\ phaseP = "run" /\ AllIdle /\ evals < MaxEvals /\ NeedsSwitch(o, k)
   /\ MM_Call(Owned(o), "sens", k = "S1")
-  /\ phaseP' = "mid" /\ evals' = evals /\ ehist' = Append(ehist, <<"eval", o, k>>)
+  /\ phaseP' = "mid" /\ evals' = evals /\ ehist' = Append(ehist, <<"eval", o, k>>) /\ UNCHANGED emvars
 PU_EvalRun(o, k) ==
   /\ AllIdle
   /\ \/ phaseP = "mid" /\ Last(ehist) = <<"eval", o, k>> /\ ehist' = ehist
      \/ phaseP = "run" /\ evals < MaxEvals /\ ~NeedsSwitch(o, k) /\ ehist' = Append(ehist, <<"eval", o, k>>)
   /\ MM_Call(Owned(o), "sim", 0)
-  /\ phaseP' = "run" /\ evals' = evals + 1
+  /\ phaseP' = "run" /\ evals' = evals + 1 /\ UNCHANGED emvars
 \* the user changes the original model after construction
 PU_MutateUser ==
   /\ phaseP = "run" /\ AllIdle /\ evals < MaxEvals
   /\ \E oa \in {<<"adm", "indirect">>, <<"reg", 2>>, <<"outs", 1>>, <<"sens", TRUE>>} :
         /\ MM_Call(1, oa[1], oa[2])
         /\ ehist' = Append(ehist, <<"mutate", oa[1], oa[2]>>)
-  /\ evals' = evals + 1 /\ UNCHANGED phaseP
+  /\ evals' = evals + 1 /\ UNCHANGED <<phaseP, emvars>>
+\* the user re-fixes a parameter of the (reduced) error model he handed over: the mask / buffer arrays are written in place
+PU_UserRefix ==
+  /\ phaseP = "run" /\ AllIdle /\ evals < MaxEvals
+  /\ cells' = [cells EXCEPT ![emcell[0]].rel = 3 - @]
+  /\ ehist' = Append(ehist, <<"mutate", "emfix", 3 - cells[emcell[0]].rel>>)
+  /\ evals' = evals + 1 /\ UNCHANGED <<cfg, pend, solver, sinfo, nops, last, hist, phaseP, emcell>>
+\* fix_parameters on object o itself (a public call): the only step that may change what o evaluates with
+PU_ObjFix(o) ==
+  /\ phaseP = "run" /\ AllIdle /\ evals < MaxEvals /\ ~EMVal(o).base
+  /\ cells' = [cells EXCEPT ![emcell[o]].base = TRUE]
+  /\ ehist' = Append(ehist, <<"objfix", o, 1>>)
+  /\ evals' = evals + 1 /\ UNCHANGED <<cfg, pend, solver, sinfo, nops, last, hist, phaseP, emcell>>
 
-PU_Next == \/ PU_Configure \/ PU_Construct \/ PU_Start \/ PU_MutateUser
+PU_Next == \/ PU_Configure \/ PU_Construct \/ PU_Start \/ PU_MutateUser \/ PU_UserRefix
+           \/ \E o \in Objects : PU_ObjFix(o)
            \/ \E o \in Objects : \E k \in EvalKinds : PU_EvalSwitch(o, k) \/ PU_EvalRun(o, k)
-           \/ (\E m \in Inst : MM_Step(m)) /\ UNCHANGED <<evals, phaseP, ehist>>
+           \/ (\E m \in Inst : MM_Step(m)) /\ UNCHANGED <<evals, phaseP, ehist, emvars>>
 PU_Spec == PU_Init /\ [][PU_Next]_pvars
-PU_View == <<cfg, pend, solver, sinfo, phaseP>>
+PU_View == <<cfg, pend, solver, sinfo, phaseP, emcell, cells>>
 
 \* what an evaluation result may depend on: the configuration of the owned model without the switch
 ResultCfg(m) == [admin |-> cfg[m].admin, reg |-> cfg[m].reg, outs |-> cfg[m].outs, pren |-> cfg[m].pren, oren |-> cfg[m].oren]
@@ -77,6 +99,11 @@ ResultCfg(m) == [admin |-> cfg[m].admin, reg |-> cfg[m].reg, outs |-> cfg[m].out
 IsolationStep == phaseP \in {"run", "mid"} =>
                  \A o \in Objects : (cfg'[Owned(o)].ex /\ cfg[Owned(o)].ex) => ResultCfg(Owned(o))' = ResultCfg(Owned(o))
 Isolation == [][IsolationStep]_pvars
+\* the same for the error models: what object o evaluates with changes only through fix_parameters on o itself -- not through
+\* the user's later re-fixing, nor through fix_parameters on a sibling object
+EMIsolationStep == phaseP \in {"run", "mid"} =>
+   \A o \in Objects : EMVal(o)' # EMVal(o) => (ehist' # ehist /\ Last(ehist') = <<"objfix", o, 1>>)
+EMIsolation == [][EMIsolationStep]_pvars
 \* every object got the regimen that was configured before it was built
 ObjectsDosed == phaseP \in {"run", "mid"} => \A o \in Objects : cfg[Owned(o)].reg = 1 /\ cfg[Owned(o)].admin = "direct"
 
